@@ -156,8 +156,32 @@ class EPModel(KModel):
             return NotImplemented
         if name == 'core::slice::<impl [T]>::iter' and isinstance(a0, Obj) and a0.kind == 'shape':
             return Obj('dimseq', dim=a0.d['dim'])
+        if name.startswith('core::slice::<impl [T]>::') and isinstance(a0, Obj) and a0.kind == 'dimseq':
+            r = self.dimseq_call(last, a0, args, e)
+            if r is not NotImplemented:
+                return r
+        if name in ('std::iter::Iterator::try_for_each', 'std::iter::Iterator::for_each') and isinstance(a0, Obj) and \
+                a0.kind in ('indexed_iter', 'query_iter', 'query_zip'):
+            return self.query_each(a0, args[1], last == 'try_for_each', e)
+        if name == 'std::iter::Iterator::fold' and isinstance(a0, Enum) and a0.adt == 'std::ops::Range':
+            return self.range_fold(a0, args[1], args[2], e)
+        if name == 'std::iter::Iterator::zip' and isinstance(a0, Obj) and a0.kind in ('indexed_iter', 'query_iter'):
+            b0 = deref_all(args[1])
+            if isinstance(b0, Obj) and b0.kind == 'ndarr' and b0.d['role'] == 'query':
+                b0 = Obj('query_iter', of=b0)       # `zip` takes any IntoIterator: &array iterates its elements in logical order
+            if isinstance(b0, Obj) and b0.kind in ('indexed_iter', 'query_iter'):
+                if a0.d['of'].d['shape'].key() != b0.d['of'].d['shape'].key():
+                    raise Unsupported("lock-step iteration over two query arrays that are not known to have the same shape "
+                                      "(%r, %r): the pairs would not share one index" % (a0.d['of'].d['shape'], b0.d['of'].d['shape']), e)
+                return Obj('query_zip', parts=[a0, b0])
+            return NotImplemented
         if name == 'std::iter::Iterator::chain':
             a, b = deref_all(args[0]), deref_all(args[1])
+            # `chain` takes any IntoIterator: a slice of the shape is as good as its iterator
+            if isinstance(b, Obj) and b.kind == 'shape':
+                b = Obj('dimseq', dim=b.d['dim'])
+            if isinstance(a, Obj) and a.kind == 'shape':
+                a = Obj('dimseq', dim=a.d['dim'])
             if isinstance(a, Obj) and a.kind == 'dimseq' and isinstance(b, Obj) and b.kind == 'dimseq':
                 return Obj('dimseq', dim=Dim(a.d['dim'].items + b.d['dim'].items))
             return NotImplemented
@@ -184,7 +208,7 @@ class EPModel(KModel):
                 if not is_axis0(args[1]):
                     raise Unsupported("remove_axis of an axis other than Axis(0)", e)
                 return a0.drop_first(e)
-            if last == 'as_array_view':
+            if last in ('as_array_view', 'slice'):
                 return Obj('dimseq', dim=a0)
             if last == 'ndim':
                 return Num(a0.ndim())
@@ -193,22 +217,15 @@ class EPModel(KModel):
             if last == 'clone':
                 return a0
         if isinstance(a0, Obj) and a0.kind == 'dimseq':
-            if last == 'iter':
-                return a0
-            if last == 'get':
-                # current_dim.as_array_view().get(nr): Some(idx) on a query axis, None on a trailing axis
-                src = a0.d['dim']
-                if isinstance(src, Obj) and src.kind == 'qidx':
-                    cls = self.scn.get('axis_class')
-                    if cls == 'query':
-                        return SOME(Ref(ValPlace(Num(Rat.atom('e[nr]')))))
-                    if cls == 'trailing':
-                        return NONE
-                raise Unsupported("get() on a dimension sequence outside slice_each_axis_mut", e)
+            r = self.dimseq_call(last, a0, args, e)
+            if r is not NotImplemented:
+                return r
         if isinstance(a0, Obj) and a0.kind == 'qidx':
+            if last == 'ndim':
+                return Num(self.qdim.ndim())
             if last in ('into_dimension', 'clone'):
                 return a0
-            if last == 'as_array_view':
+            if last in ('as_array_view', 'slice'):
                 return Obj('dimseq', dim=a0)
         if isinstance(a0, Obj) and a0.kind == 'ndarr':
             return self.ndarr_call(last, a0, args, e)
@@ -216,6 +233,24 @@ class EPModel(KModel):
             return self.view_call(last, a0, args, e)
         if last == 'zeros' and isinstance(a0, Dim):
             return Obj('ndarr', name='alloc%d' % len(self.events), shape=a0, role='alloc')
+        return NotImplemented
+
+    def dimseq_call(self, last, a0, args, e):
+        """the index / shape seen as a sequence of usize (`as_array_view()`, `slice()`)"""
+        src = a0.d['dim']
+        if last == 'iter':
+            return a0
+        if last in ('len', 'ndim'):
+            return Num(self.qdim.ndim()) if isinstance(src, Obj) and src.kind == 'qidx' else Num(src.ndim())
+        if last == 'get':
+            # current_dim.as_array_view().get(nr): Some(idx) on a query axis, None on a trailing axis
+            if isinstance(src, Obj) and src.kind == 'qidx':
+                cls = self.scn.get('axis_class')
+                if cls == 'query':
+                    return SOME(Ref(ValPlace(Num(Rat.atom('e[nr]')))))
+                if cls == 'trailing':
+                    return NONE
+            raise Unsupported("get() on a dimension sequence outside slice_each_axis_mut", e)
         return NotImplemented
 
     # ------------------------------------------------------------ arrays
@@ -231,6 +266,8 @@ class EPModel(KModel):
             return Obj('view', root=a, rootkind=a.d['role'], shape=a.d['shape'], lead=None, ones=Rat.const(0))
         if last == 'indexed_iter' and a.d['role'] == 'query':
             return Obj('indexed_iter', of=a)
+        if last == 'iter' and a.d['role'] == 'query':
+            return Obj('query_iter', of=a)
         if last == 'get' and a.d['role'] == 'query':
             idx = deref_all(args[1])
             if isinstance(idx, Obj) and idx.kind == 'qidx':
@@ -246,7 +283,9 @@ class EPModel(KModel):
             return Ref(ValPlace(Obj('shape', dim=d['shape'])))
         if last == 'ndim':
             return Num(d['shape'].ndim())
-        if last in ('view_mut', 'reborrow', 'into_dyn'):
+        if last in ('view_mut', 'reborrow'):
+            return Obj('view', **dict(d))       # a fresh handle: in-place slicing of the reborrow must not change the original
+        if last == 'into_dyn':
             return v
         if last == 'remove_axis':
             # removing the only axis (length 1) of the 1-element scalar buffer view
@@ -257,8 +296,13 @@ class EPModel(KModel):
             if not is_axis0(args[1]):
                 raise Unsupported("axis_iter_mut over an axis other than Axis(0)", e)
             return Obj('axis_iter_mut', of=v)
-        if last == 'slice_each_axis_mut':
+        if last in ('slice_each_axis_mut', 'slice_each_axis'):
             return self.slice_each_axis(v, args[1], e)
+        if last == 'slice_each_axis_inplace':
+            nv = self.slice_each_axis(v, args[1], e)
+            v.d.clear()
+            v.d.update(nv.d)
+            return Unit()
         if last == 'index_axis_move':
             i = deref_all(args[2])
             if not (is_axis0(args[1]) and isinstance(i, Num) and i.const() == 0 and d.get('lead') == 'qidx-unit'):
@@ -309,15 +353,53 @@ class EPModel(KModel):
                    lead='qidx-unit', ones=Rat.atom('len(Q)') if self.qdim.items and self.qdim.items[0][0] == 'seq' else Rat.const(len(self.qdim.items)))
 
     # ------------------------------------------------------------ loops
+    @staticmethod
+    def query_item(it):
+        def item_of(o):
+            q = o.d['of']
+            elem = Ref(ValPlace(Num(Rat.atom('%s[e]' % q.d['name']))))
+            return Tup([Obj('qidx', of=q), elem]) if o.kind == 'indexed_iter' else elem
+        return Tup([item_of(o) for o in it.d['parts']]) if it.kind == 'query_zip' else item_of(it)
+
+    def query_each(self, it, clo, fallible, e):
+        """(try_)for_each over the query elements: two generic elements, the first error ends the iteration"""
+        for tag in ('e', 'e2'):
+            self.cur_elem = tag
+            self.loop_elems += 1
+            try:
+                r = deref_all(self.interp.apply(clo, [self.query_item(it)], e))
+            finally:
+                self.cur_elem = None
+            if fallible:
+                if not (isinstance(r, Enum) and r.adt == 'std::result::Result'):
+                    raise Unsupported("try_for_each closure must return a Result, got %r" % (r,), e)
+                if r.variant == 'Err':
+                    return r
+        return OK(Unit()) if fallible else Unit()
+
+    def range_fold(self, rng, init, clo, e):
+        """fold over an index range: one inductive step on the accumulator, the unit-axis counter extrapolated over the trip count"""
+        start, end = deref_all(rng.fields['start']), deref_all(rng.fields['end'])
+        if not (isinstance(start, Num) and isinstance(end, Num)):
+            raise Unsupported("fold bounds %r .. %r are not index expressions known to the model" % (start, end), e)
+        trip = end.r - start.r
+        acc = deref_all(init)
+        r = deref_all(self.interp.apply(clo, [acc, Num(Rat.atom('loopvar'))], e))
+        if isinstance(acc, Obj) and acc.kind == 'view' and isinstance(r, Obj) and r.kind == 'view' and acc.d.get('lead') == 'qidx-unit':
+            delta = r.d['ones'] - acc.d['ones']
+            out = Obj('view', **dict(r.d))
+            out.d['ones'] = acc.d['ones'] + trip * delta
+            return out
+        raise Unsupported("fold over a range whose accumulator is not a view losing unit axes", e)
+
     def for_loop(self, iterable, pat, body, frame, e):
         it = deref_all(iterable)
-        if isinstance(it, Obj) and it.kind == 'indexed_iter':
-            q = it.d['of']
+        if isinstance(it, Obj) and it.kind in ('indexed_iter', 'query_iter', 'query_zip'):
             # two generic elements: e (scenario result of the sink) followed by e2 (sink succeeds);
             # an early return propagates as the function's result
             for tag in ('e', 'e2'):
                 self.cur_elem = tag
-                item = Tup([Obj('qidx', of=q), Ref(ValPlace(Num(Rat.atom('%s[e]' % q.d['name']))))])
+                item = self.query_item(it)
                 if not self.interp.match_pat(pat, ValPlace(item), frame):
                     raise Unsupported("loop pattern over indexed_iter", e)
                 self.loop_elems += 1
@@ -328,6 +410,8 @@ class EPModel(KModel):
             return Unit()
         if isinstance(it, Enum) and it.adt == 'std::ops::Range':
             start, end = deref_all(it.fields['start']), deref_all(it.fields['end'])
+            if not (isinstance(start, Num) and isinstance(end, Num)):
+                raise Unsupported("loop bounds %r .. %r are not index expressions known to the model" % (start, end), e)
             trip = end.r - start.r
             # one inductive step on the view-typed variables, then extrapolate the unit-axis counter
             before = {}
